@@ -319,6 +319,7 @@ def run_case(case):
                 _real(systems[fl]["h"], op)
             _model(M, op)
     disjoint_live = True
+    diverged = False        # the sequence was cut at an unspecified mutation: the model no longer mirrors the stores
     saw_mut, nt_obs, err_path = set(), False, False
     labels = set()
     labels.add("base-" + case["base"])
@@ -361,6 +362,7 @@ def run_case(case):
             labels.add("unspecified-call")
             if kind in MUTATORS:
                 # cannot mirror a mutation we have no specification for: stop the sequence here
+                diverged = True
                 break
         else:
             for fl, r in real.items():
@@ -396,13 +398,14 @@ def run_case(case):
     # ---- a node id that is NOT unique is never silently resolved: if (through a deliberate rewrite of NodeID, the
     # only way the interface offers) two nodes of one graph carry the same id, every call addressing that id must
     # refuse rather than act on one of them
-    if not v:
+    if not v and not diverged:
         for fl in ("shared", "disjoint"):
             if fl == "disjoint" and not disjoint_live:
                 continue
             for gid in GRAPHS:
                 ids_ = sorted(M.g(gid)["nodes"])
-                if len(ids_) < 2:
+                held = store.canon(systems[fl]["imp"], gid)
+                if len(ids_) < 2 or held is None or sorted(held["nodes"]) != ids_:
                     continue
                 G = systems[fl]["h"][gid]
                 x, y = ids_[0], ids_[1]
